@@ -1,0 +1,6 @@
+//go:build verif
+
+package util
+
+// VerifUpdated reports the "needs emitting" flag for the verification harness.
+func (p Opt[T]) VerifUpdated() bool { return p.updated }
